@@ -6,7 +6,7 @@ const zzL = "0x1000000000000000000000000000000014def9dea2f79cd65812631a5cf5d3ed"
 
 // red512(full): x mod L for every 512-bit x, canonical
 //
-//zz: prop=C05 tier=thorough backend=lia timeout=3000 budget=7200
+//zz: prop=C05 tier=deep backend=lia timeout=3000 budget=7200
 func ZZ_C05_red512_full() {
 	var x [8]uint64
 	zzFill("x", &x)
@@ -33,7 +33,7 @@ func ZZ_C05_red512_half() {
 
 // calculateS: s = (r + k*a) mod L, canonical, for all 32-byte r, k, a
 //
-//zz: prop=C05 tier=thorough backend=lia timeout=1500 budget=3600
+//zz: prop=C05 tier=deep backend=lia timeout=1500 budget=3600
 func ZZ_C05_calculateS() {
 	r, k, a, s := make([]byte, 32), make([]byte, 32), make([]byte, 32), make([]byte, 32)
 	zzFillLimbs("r", r)
@@ -47,7 +47,7 @@ func ZZ_C05_calculateS() {
 
 // the multiply-accumulate part of calculateS alone (exact 512-bit value), red512 proved separately
 //
-//zz: prop=C05 tier=thorough backend=lia timeout=3000 budget=7200
+//zz: prop=C05 tier=deep backend=lia timeout=3000 budget=7200
 func ZZ_C05_reduceModOrder_bytes() {
 	k := make([]byte, 64)
 	zzFillLimbs("k", k)
@@ -78,10 +78,10 @@ func ZZ_C05_red512_full_320bit() { zzRed512OneWord(4) }
 //zz: prop=C05 tier=thorough backend=lia timeout=3000 budget=7200
 func ZZ_C05_red512_full_word5() { zzRed512OneWord(5) }
 
-//zz: prop=C05 tier=thorough backend=lia timeout=3000 budget=7200
+//zz: prop=C05 tier=deep backend=lia timeout=3000 budget=7200
 func ZZ_C05_red512_full_word6() { zzRed512OneWord(6) }
 
-//zz: prop=C05 tier=thorough backend=lia timeout=3000 budget=7200
+//zz: prop=C05 tier=deep backend=lia timeout=3000 budget=7200
 func ZZ_C05_red512_full_word7() { zzRed512OneWord(7) }
 
 func zzRed512OneWord(w int) {
